@@ -15,6 +15,8 @@ import PdModel.Proto
 * `getlineno <nodeLine|N> <u:nodeRaw> (<line|N> <u:rawsource>)*` → `get_lineno`
 * `attr <classDl> <off> (f:<fieldLineno> | d:<ownDl>)*` → which text is rendered, reported line, docstring_lineno
 * `napoleon <g|n> <hdr> <t<extra>|u<extra>,…>` → written line, `:param` line, `:type` line of every entry
+* `docgn <g|n> <isModule> <linenumber> <strLineno> <u:value> <raw line of the section header|-> <entries|-> <cls:raw:j>*`
+      → every `(line, kind)` reported for a google / numpy docstring of the generated shape
 * `parser <fmt> <u:value> <cls:raw:j>*` → `Field.lineno`s and `ParseError._linenum`s the parser stores
 * `inrange <strLineno> <u:value> <isModule> <linenumber> <d|x|o> <offset>` → `<line> in|out`
 * `sys <W> <verbosity> <op>*`  ops: `m:<sec>:<msg>:<thresh>:<top>:<once>`, `r:<sec>:<obj>:<nerrs>`
@@ -245,6 +247,26 @@ def handle (args : List String) : String :=
         ++ " param=" ++ Proto.showNatList (idx.map (paramOutLine numpy hdr es))
         ++ " type=" ++ Proto.showNatList (idx.filterMap fun k => if ((es[k]?).map (·.typed)).getD false then some (typeOutLine numpy hdr es k) else none)
     | _, _ => "bad-op"
+  | "docgn" :: kind :: im :: ln :: sl :: v :: hdrRaw :: es :: cs =>
+    -- google / numpy docstring: paragraphs (constructs X / E, copied one for one by napoleon) and, when `hdrRaw` is not
+    -- `-`, a trailing parameter section whose entries document parameters that do not exist
+    match parseBool im, parseInt ln, sl.toNat?, Proto.decodeStr v, parseEntries es, cs.mapM parseIOCons with
+    | some im, some ln, some sl, some doc, some es, some cs =>
+      let numpy := kind == "n"
+      let o := docObj sl doc ln im
+      let paras := cs.map fun c =>
+        let r := ioLine .rst sl doc ln im c
+        showLine r.1 ++ ":" ++ r.2
+      let sect := match hdrRaw.toNat? with
+        | some hr =>
+          let hdr := hr - dropped doc
+          (List.range es.length).flatMap fun k =>
+            [showLine (report o .docstring (convertedParamOffset numpy hdr es k)) ++ ":P"] ++
+            (if ((es[k]?).map (·.typed)).getD false then
+              [showLine (report o .xref (convertedTypeOffset numpy hdr es k)) ++ ":X"] else [])
+        | none => []
+      " ".intercalate ((sortToks (paras ++ sect)).eraseDups)
+    | _, _, _, _, _, _ => "bad-op"
   | "parser" :: fmt :: v :: cs =>
     -- what the parser itself stores: Field.lineno of every field-level construct, ParseError._linenum of every error
     match parseFmt fmt, Proto.decodeStr v, cs.mapM parseIOCons with
